@@ -7,7 +7,7 @@
    any completion times incl. "never", any results, any deadline); every theorem below is
    about all reachable states, i.e. all schedules.  `wf sc` is what the length check at the
    top of MeasureClockOffsets establishes (len(ms) = len(refclks)). *)
-From Coq Require Import ZArith List Bool.
+From Coq Require Import ZArith List Bool Sorting.Permutation.
 From ST Require Import Model.Collect Proofs.CollectProofs.
 Import ListNotations.
 Open Scope Z_scope.
@@ -105,6 +105,18 @@ Theorem C16_oracle_guard : forall cs T, starts_from T cs -> C16_guard_ok (hist_m
 Proof. exact guard_oracle_model. Qed.
 Print Assumptions C16_oracle_guard.
 
+(* Calls made concurrently (several goroutines at the same instant) reach the compare-and-swap in
+   SOME order; whatever that order is, the model's outcomes satisfy the order-free oracle (no two
+   returned calls in progress at the same time, every refusal has a call in progress as its cause,
+   outcome classes), and that oracle does not depend on how the calls are listed. *)
+Theorem C16_oracle_concurrent : forall cs T, starts_from T cs -> C16_concurrent_ok (hist_model ginit None 0 cs) = true.
+Proof. exact concurrent_oracle_model. Qed.
+Print Assumptions C16_oracle_concurrent.
+
+Theorem C16_oracle_concurrent_order_free : forall l l', Permutation l l' -> C16_concurrent_ok l = C16_concurrent_ok l'.
+Proof. exact concurrent_ok_perm. Qed.
+Print Assumptions C16_oracle_concurrent_order_free.
+
 (* lts_outcomes_allowed: the schedule search of the dispatcher (Extract/GlueC16.v) only ever
    produces states of the model, so an observation it accepts is an outcome of the LTS *)
 Theorem C16_guided_schedules_are_model_schedules : forall fuel sc lim g s0 s g', reachable sc s0 ->
@@ -157,3 +169,12 @@ Example ex_history :
       {| hc_start := 100; hc_lens := true; hc_dur := 30; hc_return_first := true |};
       {| hc_start := 129; hc_lens := true; hc_dur := 1; hc_return_first := false |} ]) = [0; 2; 1; 0; 2].
 Proof. reflexivity. Qed.
+
+(* two calls in progress at once are rejected by the order-free oracle, in either listing *)
+Example ex_two_in_progress :
+  C16_concurrent_ok [ {| go_start := 5; go_lens := true; go_out := 0; go_ret := 105 |};
+                      {| go_start := 5; go_lens := true; go_out := 0; go_ret := 75 |} ] = false
+  /\ C16_concurrent_ok [ {| go_start := 5; go_lens := true; go_out := 0; go_ret := 105 |};
+                         {| go_start := 5; go_lens := true; go_out := 2; go_ret := -1 |};
+                         {| go_start := 5; go_lens := true; go_out := 2; go_ret := -1 |} ] = true.
+Proof. split; reflexivity. Qed.
